@@ -116,7 +116,13 @@ def extra_return(run, s, kw):
         if inst.get("fstar") is not None:
             fs = float(inst["fstar"])
             tol = float(inst.get("opttol", 1e-6))
-            d["optok"] = bool(s.obj - fs <= tol * (1.0 + fs))
+            if inst.get("reg", "none") == "none":
+                # C05: "returns a feasible point whose objective is within ...": the objective AT the returned point, recomputed from the data
+                xr = np.asarray(s.x, dtype=float)
+                ftrue = float(np.sum(np.asarray(run.P["resid"](xr), dtype=float) ** 2))
+                d["optok"] = bool(ftrue - fs <= tol * (1.0 + fs))
+            else:
+                d["optok"] = bool(s.obj - fs <= tol * (1.0 + fs))
             d["fstar"] = fs
             sa = run.P.get("seen_args")
             if sa is not None and inst.get("args"):
